@@ -9,6 +9,12 @@ TRUST = ("Trusted base: Go type checker and go/ssa construction (x/tools v0.29.0
 
 # id -> (claimed?, technique, level text, not-decided / note, design ref)
 P = {
+ "C01": (True, "static analysis: SSA value provenance + dominance/must-pass-through rules on the reply loops; AST rules on generated wrappers",
+         "Decides the data path from 'reply received' to 'value returned': success carries exactly the quorum function's result under its own verdict; the function gets the original request and one only-growing reply map written only with (nid,msg) of the response just received on the no-error edge; one call site, one goroutine, no call after quorum; every response names the node of the producing channel. Necessary structural conditions, not a proof of the behaviour.",
+         "Not decided: transport fidelity; that the server's reply answers this call's request beyond the id echo (C05); user quorum functions' values.", "DESIGN.md section 3, C01"),
+ "C02": (True, "static analysis: exit classification, must-pass-through and iteration-shape counting on SSA control-flow graphs",
+         "Decides the exit structure of the three reply loops (every completion is success / Incomplete-under-exhaustion / ctx.Err()-inside-ctx.Done-case, with consistent accounting), that the exhaustion test is evaluated before every wait including the first, the send-loop counting invariant (#enqueue + #decrement = 1 per iteration), the Async future protocol and QuorumCallError.Is. Necessary structural conditions.",
+         "Not decided: wall-clock promptness; scheduler fairness of select.", "DESIGN.md section 3, C02"),
  "C19": (True, "static analysis: finite decision-table extraction from the AST (strict-weak-order axioms) + SSA shape/provenance rules",
          "Decides, on the current source, that each provided sort key is a strict weak order (exhaustive over the abstract domain of the projections it compares) and that MultiSorter.Less/Swap/Len/Sort have the lexicographic-combinator and permutation shape. A necessary structural condition, not a proof of the sorting behaviour.",
          "Not decided: sort.Sort itself; OrderedBy() with no key; user-defined keys.", "DESIGN.md section 3, C19"),
